@@ -171,6 +171,7 @@ _WORLD = {
     'C01': ((2, 1, 5), (3, 2, 7)),
     'C02': ((2, 1, 4), (3, 2, 6)),
     'C03': ((2, 1, 3), (2, 2, 5)),
+    'C04': ((2, 2, 3), (2, 3, 5)),
     'C07': ((2, 1, 6), (3, 2, 8)),
     'C08': ((2, 0, 4), (3, 0, 6)),
     'C09': ((1, 0, 4), (1, 0, 6)),
